@@ -19,6 +19,9 @@ Jobs (one shared run):
      committed entries and leader views are recorded and validated by TLC against ReplLogTrace.
  (5) Paxos side (what the simulator can run): the real `kv_replica` (slot sequencing + application)
      on 3 replicas fed the same decided log in simulator-chosen orders/instalments; ReplLogTrace.
+ (5b) Paxos proposer side: PaxosImpl (acceptor rules of paxos.rs + Recommit of Paxos.tla) is model
+     checked for Agreement; the real `recommit_after_leader_election` and `index_payloads` run under
+     the simulator on seeded consistent p1b quorums / payload scripts; PaxosTrace / ReplLogTrace.
  (6) canaries: corrupted copies of good recorded cases ride along in the same TLC runs and MUST be
      flagged (one committed entry changed; a second leader forged into a term)."""
 import copy
@@ -31,8 +34,8 @@ PROPS = ["C40"]
 ENGINE = "spec/ReplLog: ReplLog monitor + Raft.tla step function (TLC exhaustive over schedules of bounded inputs), TLC behaviours replayed into the real raft_step, real raft_step / simulator runs of raft_server and kv_replica validated by TLC (RaftTrace, ReplLogTrace)"
 MANIFEST = {
     "C40": {
-        "text": "TLC exhaustively checks the Raft step function transcribed from raft.rs (3 members, all schedules and batchings of <=2 election interrupts, <=2 heartbeat interrupts, <=1-2 requests) against Agreement / AppendOnly / ElectionSafety and the protocol invariants; TLC-generated behaviours are replayed into the real raft_step and seeded random real runs are recorded, TLC re-derives every recorded step (state, messages, commits) and evaluates the invariants on the recorded cluster states; the real raft_server dataflow runs under the Hydro simulator (seeded fuzzed schedules + bounded-exhaustive two-candidate election) and the real kv_replica applies a decided Paxos log in all simulator orders; TLC validates every recorded committed/applied history.",
-        "note": "Paxos: only the replica-application component (kv_replica / sequence_payloads) is bound; leader election and phase 1/2 of paxos.rs use wall-clock timers and are not simulable (not covered). Simulator runs use fail-stop channels without member crashes; crashes are covered at the raft_step level (a member stops taking steps). Bounded: 3 members, terms <= 2 (exhaustive) / <= ~20 (random).",
+        "text": "TLC exhaustively checks the Raft step function transcribed from raft.rs (3 members, all schedules and batchings of <=2 election interrupts, <=2 heartbeat interrupts, <=1-2 requests) against Agreement / AppendOnly / ElectionSafety and the protocol invariants; TLC-generated behaviours are replayed into the real raft_step and seeded random real runs are recorded, TLC re-derives every recorded step (state, messages, commits) and evaluates the invariants on the recorded cluster states; the real raft_server dataflow runs under the Hydro simulator (seeded fuzzed schedules + bounded-exhaustive two-candidate election) and the real kv_replica applies a decided Paxos log in all simulator orders; TLC validates every recorded committed/applied history. Paxos: TLC checks Agreement of a multi-slot Paxos model built from the acceptor rules of paxos.rs and the Recommit rule, and validates recorded calls of the real recommit_after_leader_election / index_payloads against that rule.",
+        "note": "Paxos: the full protocol is not simulable (leader election uses wall-clock timers); bound are the components the simulator can run -- recommit_after_leader_election (value selection after an election, validated against Paxos.tla whose rule is model-checked inside PaxosImpl for Agreement), index_payloads (slot assignment) and kv_replica (slot sequencing + application); acceptor_p1/p2 and the quorum plumbing are modelled only. Simulator runs use fail-stop channels without member crashes; crashes are covered at the raft_step level (a member stops taking steps). Bounded: 3 members, terms <= 2 (exhaustive) / <= ~20 (random).",
         "technique": "TLA+ spec model-checked with TLC + conformance (TLC behaviours replayed into the code; code and simulator traces validated by TLC)",
         "design_ref": "DESIGN.md §6.17",
     },
@@ -75,6 +78,36 @@ def _run(exe, args, what, timeout=3600):
         return json.loads(p.stdout.strip().splitlines()[-1])
     except Exception:
         raise vlib.ToolError("%s printed no summary: %s" % (what, p.stdout[-500:] + p.stderr[-1500:]))
+
+
+def _run_sim(exe, args, trace, what, timeout=7200):
+    """Like _run, but a simulator process killed by an assert of the example under test (the
+    raft.rs protocol guards abort through the dylib boundary) is DATA: the trace written so far is
+    kept and the unfinished case gets a panic event."""
+    p = vlib.run_bin(exe, args, timeout=timeout)
+    if p.returncode == 0:
+        try:
+            return json.loads(p.stdout.strip().splitlines()[-1])
+        except Exception:
+            raise vlib.ToolError("%s printed no summary: %s" % (what, p.stdout[-500:] + p.stderr[-1500:]))
+    err = p.stderr or ""
+    if "protocol violation" in err and os.path.exists(trace):
+        lines = [x for x in open(trace).read().splitlines() if x.strip()]
+        good = []
+        for x in lines:
+            try:
+                good.append(json.loads(x))
+            except Exception:
+                break
+        msg = [x for x in err.splitlines() if "protocol violation" in x][-1][:300]
+        good.append({"e": "panic", "msg": msg})
+        good.append({"e": "eof"})
+        vlib.write_ndjson(trace, good)
+        n = sum(1 for e in good if e.get("e") == "reset")
+        return {"cases": n, "commits": sum(1 for e in good if e.get("e") == "commit"), "panics": 1,
+                "multi_leader": 0, "nontrivial": 0, "aborted": msg, "explored": n, "complete": False,
+                "err": msg}
+    raise vlib.ToolError("%s failed (rc=%s): %s" % (what, p.returncode, err[-3000:]))
 
 
 def _cases(path):
@@ -306,15 +339,26 @@ def run(tier):
                         "events": [{k: e[k] for k in ("m", "el", "hb", "reqs", "msgs", "com")}
                                    for e in ex[1:6]]})
 
+    try:
+        _sim_stages(res, thorough, sim_exe, kv_exe, os.path.join(bindir, "paxos_parts"), d)
+    except vlib.ToolError as e:
+        if not res.violations:
+            raise
+        res.extra["later_stage_tool_error"] = str(e)[:600]
+    _finish(res)
+    return {"C40": res}
+
+
+def _sim_stages(res, thorough, sim_exe, kv_exe, px_exe, d):
     # (4) simulator level: the real raft_server dataflow
     nfuzz = 3000 if thorough else 300
     sim_trace = os.path.join(d, "sim_fuzz.ndjson")
-    ssumm = _run(sim_exe, ["fuzz", nfuzz, sim_trace], "raft_sim fuzz", timeout=7200)
-    if ssumm["commits"] < nfuzz // 2 or ssumm["multi_leader"] < nfuzz // 10:
+    ssumm = _run_sim(sim_exe, ["fuzz", nfuzz, sim_trace], sim_trace, "raft_sim fuzz")
+    if "aborted" not in ssumm and (ssumm["commits"] < nfuzz // 2 or ssumm["multi_leader"] < nfuzz // 10):
         raise vlib.ToolError("vacuous raft_sim run: %s" % ssumm)
     sim_cases = _renumber(_cases(sim_trace), 0)
     x_trace = os.path.join(d, "sim_x.ndjson")
-    xs = _run(sim_exe, ["exhaustive", 0, x_trace, 60000], "raft_sim exhaustive", timeout=7200)
+    xs = _run_sim(sim_exe, ["exhaustive", 0, x_trace, 60000], x_trace, "raft_sim exhaustive")
     if not xs["complete"] and "budget" not in xs["err"]:
         # a panic inside the exhaustive exploration (not our budget stop): record it as a case
         res.extra["sim_exhaustive_error"] = xs["err"][:300]
@@ -349,8 +393,18 @@ def run(tier):
     res.extra["kv_replica_exhaustive"] = {"schedules": kxs["explored"], "complete": kxs["complete"],
                                           "distinct_outcomes": len(kxd)}
     all_sim = sim_cases + x_cases + kv_cases + kx_cases
+    # Paxos proposer side: slot assignment (index_payloads) joins the same TLC run
+    nix = 1000 if thorough else 150
+    ix_trace = os.path.join(d, "index.ndjson")
+    isumm = _run(px_exe, ["index", nix, ix_trace], "paxos_parts index", timeout=7200)
+    if isumm["applies"] < nix:
+        raise vlib.ToolError("vacuous paxos_parts index run: %s" % isumm)
+    ix_cases = _renumber(_cases(ix_trace), 500000)
+    all_sim += ix_cases
+    res.traces += len(ix_cases)
+    res.evaluations += nix
     can = _sim_canary(sim_cases)
-    if not can:
+    if not can and "aborted" not in ssumm:
         raise vlib.ToolError("could not build the simulator canary (no position committed by two members)")
     viol, drift = _validate("ReplLogTrace", all_sim + [c for _, c in can], res, "sim")
     by_id = {c[0]["case"]: c for c in all_sim}
@@ -374,6 +428,69 @@ def run(tier):
                         "script": ex[0]["script"], "events": ex[1:14]})
     res.samples.append({"kind": "kv_replica run", "reset": kv_cases[0][0], "events": kv_cases[0][1:8]})
 
+    _paxos_stage(res, thorough, px_exe, d)
+
+
+def _paxos_stage(res, thorough, px_exe, d):
+    # (5b) Paxos value selection: design-level model around Recommit + the real function
+    cfgp = os.path.join(vlib.rundir("cfg"), "paxos_mc.cfg")
+    with open(cfgp, "w") as f:
+        f.write("SPECIFICATION Spec\nCONSTANTS\n  NAcc = 3\n  F = 1\n  MaxBal = %d\n  NSlots = %d\n"
+                "  Values = {1, 2}\nINVARIANTS Agreement InputsConsistent Witness\nCHECK_DEADLOCK FALSE\n"
+                % ((2, 2) if thorough else (3, 1)))
+    r = vlib.tlc(SD, "PaxosImpl", cfg=cfgp, workers=8, timeout=3000, coverage=False, xmx="6g")
+    if not r.ok:
+        raise vlib.ToolError("PaxosImpl model check failed (%s):\n%s" % (r.invariant, r.error_trace[-3000:]))
+    missing = [w for w in ("leader-elected-after-a-choice", "two-values-proposed-for-a-slot")
+               if w not in _witnesses(r)]
+    if missing:
+        raise vlib.ToolError("vacuous PaxosImpl run: witnesses never reached: %s" % missing)
+    res.add_tlc(r, "PaxosImpl exhaustive (acceptor rules of paxos.rs + Recommit)")
+    nrc = 1500 if thorough else 200
+    rc_trace = os.path.join(d, "recommit.ndjson")
+    rsumm = _run(px_exe, ["recommit", nrc, rc_trace], "paxos_parts recommit", timeout=7200)
+    evs = [e for e in vlib.read_ndjson(rc_trace) if e.get("e") != "eof"]
+    if rsumm["nontrivial"] < nrc // 10:
+        raise vlib.ToolError("vacuous paxos_parts recommit run: %s" % rsumm)
+    # canary: the value re-proposed for one slot changed
+    can = None
+    for e in evs:
+        if e.get("e") == "recommit" and e["out"]:
+            can = copy.deepcopy(e)
+            can["out"][0][2] = can["out"][0][2] + 7
+            can["case"] = CANARY_BASE + 1
+            break
+    if can is None:
+        raise vlib.ToolError("could not build the recommit canary")
+    path = os.path.join(d, "tv_recommit.ndjson")
+    vlib.write_ndjson(path, evs + [can, {"e": "eof"}])
+    ok, r = vlib.validate_trace(SD, "PaxosTrace", path, tag="rl_recommit", timeout=1500)
+    if not ok:
+        raise vlib.ToolError("trace not consumed by PaxosTrace:\n%s" % r.error_trace[-2500:])
+    res.add_tlc(r, "trace-validation:recommit")
+    viol = vlib.printed_json(r, "VIOL")[0]
+    drift = vlib.printed_json(r, "DRIFT")[0]
+    if [CANARY_BASE + 1, "RecommitValueKept"] not in viol:
+        raise vlib.ToolError("recommit canary (changed re-proposed value) was NOT rejected: %s" % viol)
+    res.extra.setdefault("canaries", []).append("PaxosTrace: changed re-proposed value rejected")
+    by_case = {e["case"]: e for e in evs}
+    for case, rule in viol:
+        if case > CANARY_BASE:
+            continue
+        res.violation("paxos/recommit/%s" % rule, "rule %s broken by recommit_after_leader_election in case %s"
+                      % (rule, case), {"spec": "PaxosTrace", "events": [by_case.get(case)]})
+    for case in [c for c in drift if c <= CANARY_BASE][:5]:
+        res.drift.append({"kind": "recommit output differs from Recommit(..) of Paxos.tla", "case": by_case.get(case)})
+    res.traces += len(evs)
+    res.evaluations += len(evs)
+    res.distinct_nontrivial += len({json.dumps(e["logs"], sort_keys=True) for e in evs
+                                    if e.get("e") == "recommit" and len(e["out"]) >= 2})
+    ex = next((e for e in evs if e.get("e") == "recommit" and len(e["out"]) >= 2), evs[0])
+    res.samples.append({"kind": "recorded recommit_after_leader_election call ([slot, ballot, value], -1 = hole/none)",
+                        **{k: ex[k] for k in ("f", "bal", "logs", "out", "maxslot") if k in ex}})
+
+
+def _finish(res):
     res.rule = ("cases = (a) raft_step schedules: sequence of ticks (member, timers, requests, delivered batch), "
                 "TLC-generated or seeded random; (b) simulator runs: input script x simulator decision bytes. "
                 "non-trivial = leaders in >= 2 different terms and >= 2 committed entries in the case; "
@@ -383,9 +500,8 @@ def run(tier):
         "raft_step level: the harness-owned network delivers any sub-multiset of the in-flight messages (superset of per-channel FIFO)",
         "simulator level: the simulator's own scheduler decides batches/interleavings from seeded decision bytes (4096 bytes, then zeros)",
         "persistent state is never lost (no restart with amnesia)",
-        "Paxos phases 1/2 and leader election (wall-clock timers) are not covered; only kv_replica's slot sequencing/application is",
+        "Paxos: the whole protocol (leader election with wall-clock timers, phase 1/2 message flow) is not simulable; bound components: recommit_after_leader_election (value selection), index_payloads (slot assignment), kv_replica (sequencing + application); acceptor_p2 is only modelled (PaxosImpl), not bound",
     ]
-    return {"C40": res}
 
 
 def replay(pid, path):
